@@ -217,7 +217,7 @@ def atomic_write(path, text):
     _os.replace(tmp, path)
 
 
-DRIVERS = {"C09": ["c09", "c09blk"], "C01": ["c01", "c01s", "c01g"], "C02": ["c02", "c02s"], "C03": ["c01", "c01s", "c07", "c01g"], "C11": ["c11"], "C12": ["c11", "c12r", "c12p"], "C14": ["c14", "c14f"]}
+DRIVERS = {"C09": ["c09", "c09blk"], "C01": ["c01", "c01s", "c01g"], "C02": ["c02", "c02s", "c16"], "C03": ["c01", "c01s", "c07", "c01g"], "C11": ["c11"], "C12": ["c11", "c12r", "c12p"], "C14": ["c14", "c14f"]}
 
 
 # additional theorem modules (built and audited with the property): composed results living in their own files
